@@ -5,6 +5,8 @@ pub mod c02;
 pub mod c03;
 pub mod c04;
 pub mod c06;
+pub mod c07;
+pub mod c08;
 pub mod c09;
 pub mod c10;
 pub mod c12;
@@ -13,5 +15,5 @@ pub mod c15;
 pub mod c20;
 
 pub fn all() -> Vec<&'static PropSpec> {
-    vec![&c01::SPEC, &c02::SPEC, &c03::SPEC, &c04::SPEC, &c06::SPEC, &c09::SPEC, &c10::SPEC, &c12::SPEC, &c13::SPEC, &c15::SPEC, &c20::SPEC]
+    vec![&c01::SPEC, &c02::SPEC, &c03::SPEC, &c04::SPEC, &c06::SPEC, &c07::SPEC, &c08::SPEC, &c09::SPEC, &c10::SPEC, &c12::SPEC, &c13::SPEC, &c15::SPEC, &c20::SPEC]
 }
